@@ -62,7 +62,7 @@ def make_tree(rng, typed, name, nmax=12, nmin=0, subclass=False):
                 lab, did = f"{name}{i}", None
             else:
                 lab = rng.choice("abcde")
-                did = rng.choice([None, None, "X", "Y", 7, lab + "_id"]) if mode == "ids" else None
+                did = rng.choice([None, None, "X", "Y", 7, lab + "_id", 0, ""]) if mode == "ids" else None
             eff = hash(lab) if did is None else did
             if eff not in used:
                 break
@@ -82,12 +82,17 @@ def make_tree(rng, typed, name, nmax=12, nmin=0, subclass=False):
     kinds = [rng.choice(["ka", "kb", "child"]) for _ in range(n)]
     nodes = gen.build(t, f, label, kind=(lambda i: kinds[i]) if typed else None,
                       data_id=lambda i: None if ids[i] == hash(labs[i]) else ids[i])
+    for nd in nodes:
+        if rng.random() < 0.4:
+            nd.set_meta("m0", rng.randrange(100))  # some source nodes carry metadata before they are copied
+            if rng.random() < 0.5:
+                nd.update_meta({"m1": "v"})
     return t, nodes
 
 
 def ident(t):
     def rec(h):
-        return [(id(c), id(c.data), c.data_id, getattr(c, "kind", None), rec(c)) for c in h.children]
+        return [(id(c), id(c.data), c.data_id, getattr(c, "kind", None), dict(c.meta) if c.meta else None, rec(c)) for c in h.children]
 
     return (t.count, rec(t))
 
@@ -119,7 +124,8 @@ def mutate_script(rng, nodes, same_tree):
             elif r < 0.55 and len(nd.children) > 1:
                 nd.sort_children(key=lambda x: str(x.data), reverse=True)
             elif r < 0.7:
-                nd.set_meta("m", rng.random())
+                rng.choice([lambda: nd.set_meta("m", rng.random()), lambda: nd.set_meta("m0", "changed"),
+                            lambda: nd.update_meta({"m1": "changed", "m2": 1}), lambda: nd.clear_meta("m0"), lambda: nd.clear_meta()])()
             elif r < 0.85:
                 if same_tree:
                     if not nd.is_clone():
